@@ -208,9 +208,23 @@ func ZZ_C16_Schema(shapeA, shapeB, shared int) {
 	// migration against an existing database: each table exists with a prefix of its columns
 	conn := &zzSchemaConn{existing: map[string][]string{}}
 	for t, cols := range created {
-		// the table does not exist yet, exists with half of its columns, or with all of them
-		k := []int{0, len(cols) / 2, len(cols)}[zzvrf.Pick("existing-columns:"+t, 3)]
-		conn.existing[t] = append([]string(nil), cols[:k]...)
+		// the table does not exist yet, exists with half of its columns, with all of
+		// them, or exactly as the first integration using it defines it (the table
+		// was created before the second integration was added to the configuration)
+		switch c := zzvrf.Pick("existing-columns:"+t, 4); c {
+		case 3:
+			for _, ig := range conf.Integrations {
+				if ig.Table.Name == t {
+					for _, col := range ig.Table.Columns {
+						conn.existing[t] = append(conn.existing[t], col.Name)
+					}
+					break
+				}
+			}
+		default:
+			k := []int{0, len(cols) / 2, len(cols)}[c]
+			conn.existing[t] = append([]string(nil), cols[:k]...)
+		}
 	}
 	merr := Migrate(context.Background(), conn, conf)
 	zzvrf.Assert(merr == nil, "migration-runs")
